@@ -108,7 +108,7 @@ def unitaries(H):
 
 
 # ----------------------------------------------------------------------------- source programs
-SQ_VARIANTS = ["none", "S2(0)", "S2(1)", "S2(.5)", "twice", "reversed", "wrong-pair"]
+SQ_VARIANTS = ["none", "S2(0)", "S2(1)", "S2(.5)", "twice", "reversed", "wrong-pair", "sandwich"]
 INTF_VARIANTS = ["Interferometer", "words", "different-halves", "mixing-halves", "first-half-only"]
 MEAS_VARIANTS = ["all", "subset", "split", "gate-after"]
 
@@ -139,6 +139,13 @@ def build_source(H, sqv, uname, U, intf, meas, order):
                     cmds.append((ops.S2gate(0.5, 0.0), (i, i + H)))
                     cmds.append((ops.S2gate(0.5, 0.0), (i, i + H)))
                     sq_vals[i] = 1.0
+                elif v == "sandwich":
+                    # a passive gate between two squeezers of one pair: the compiler may refuse it or compile it faithfully
+                    cmds.append((ops.S2gate(0.3, 0.0), (i, i + H)))
+                    cmds.append((ops.BSgate(0.4, 0.0), (i, i + H)))
+                    cmds.append((ops.S2gate(0.2, 0.0), (i, i + H)))
+                    sq_vals[i] = 0.5
+                    reason = "either"
                 elif v == "reversed":
                     cmds.append((ops.S2gate(1.0, 0.0), (i + H, i)))
                     admissible, reason = False, "squeezer on a reversed pair"
@@ -317,6 +324,9 @@ def check_case(H, devkw, compiler, sqv, uname, U, intf, meas, order, res, prev_d
             # CircuitError telling the user to reset it: an allowed outcome (circuit error), recorded
             res.stats["device_change_refused_until_reset"] += 1
             return False
+        if reason == "either":
+            res.stats[f"refused-sandwich:{compiler}"] += 1
+            return False
         if admissible and compiler != "Xcov" and not phase_range_reject:
             res.violation(f"C12|{compiler}|rejects-admissible|{intf}|{meas}", f"{compiler} on a {n}-mode device rejected an admissible source (squeezers {sqv}, {uname} unitary as {intf}, measurement {meas}, order {order}): {type(e).__name__}: {str(e)[:150]}", case)
         elif admissible and compiler == "Xcov" and "invalid value" not in str(e) and "squeez" not in str(e).lower():
@@ -364,7 +374,7 @@ def work(task):
             us = fam if intf in ("Interferometer",) else fam[:3]
             for uname, U in us:
                 for meas in meas_list:
-                    ncmd = sum(2 if v == "twice" else (0 if v == "none" else 1) for v in sqv)
+                    ncmd = sum(2 if v == "twice" else (3 if v == "sandwich" else (0 if v == "none" else 1)) for v in sqv)
                     orders = [None]
                     if with_orders and 2 <= ncmd <= 3 and intf == "Interferometer" and uname == "identity":
                         orders = list(itertools.permutations(range(ncmd)))
@@ -411,7 +421,7 @@ def work_strict(task):
             if not ok:
                 res.violation("C12|Xstrict|layout-mismatch", msg, case)
     # the template with ONE hard-coded argument changed (squeezing phase 0.0 -> 0.3): must be refused
-    for k in range(len(sq_names)):
+    for k, variant in itertools.product(range(len(sq_names)), range(3)):
         res.n += 1
         vals = {x: 1 for x in sq_names}
         vals.update({x: 0.3 for x in ph_names})
@@ -421,8 +431,8 @@ def work_strict(task):
             if isinstance(cmd.op, ops.S2gate):
                 seen += 1
                 if seen == k:
-                    cmd.op = ops.S2gate(cmd.op.p[0], 0.3)
-        case = {"strict": True, "H": H, "dev": devkw, "sq": f"phase-of-squeezer-{k}", "phase": 0.3}
+                    cmd.op = ops.S2gate(cmd.op.p[0], [0.3, np.float32(0.3), np.int64(1)][variant])
+        case = {"strict": True, "H": H, "dev": devkw, "sq": f"phase-of-squeezer-{k}-as-{['float', 'numpy.float32', 'numpy.int64'][variant]}", "phase": 0.3}
         try:
             with warnings.catch_warnings():
                 warnings.simplefilter("ignore")
@@ -430,7 +440,7 @@ def work_strict(task):
         except (CircuitError, ValueError):
             res.nt += 1
             continue
-        res.violation("C12|Xstrict|fixed-parameter-ignored", f"Xstrict accepted the template with S2gate number {k} given phase 0.3 although the layout hard-codes 0.0", case)
+        res.violation("C12|Xstrict|fixed-parameter-ignored" + ("" if variant == 0 else "|numpy-scalar"), f"Xstrict accepted the template with S2gate number {k} given the phase {[0.3, 'numpy.float32(0.3)', 'numpy.int64(1)'][variant]} although the layout hard-codes 0.0", case)
     return res
 
 
